@@ -16,7 +16,7 @@
 *)
 From Coq Require Import ZArith List Bool Arith.
 Import ListNotations.
-From GV Require Import Common.Wire.
+From GV Require Import Common.Wire gen.Gen_hub.
 Open Scope nat_scope.
 
 Definition cls := nat.
@@ -255,6 +255,72 @@ Definition tree_world (ps : list nat) (scripts : list (list action)) : world :=
   {| issub := tree_issub ps; mro := tree_mro ps;
      hscript := fun h => nth h scripts []; fpass := std_fpass |}.
 
+(* ---------- the same interpreter over the TRANSLATED hub methods (gen/Gen_hub.v, regenerated from hub.py) ----------
+   Only the script interpreter is written by hand (it plays the part of the harness: it runs scripts, logs the block marks
+   and the handler entries / returns); every hub operation is the generated function.  The hub's loops and its calls of
+   itself go through [rec] (the interpreter with less fuel), exactly where [step] uses [rec]. *)
+Definition GH := (lid * hid)%type.       (* a handler object: (the listener it acts for, the script it runs) *)
+Definition ghub := @Gen_hub.ghub GH Z.
+Definition gres := @Gen_hub.gres GH Z event.
+Definition gempty : ghub := hub_init.   (* Hub.__init__ *)
+
+Definition gops (w : world) : @ops GH Z :=
+  {| issubclass := issub w;
+     getmro := fun c => repeat c (mro w c);            (* only its length is used: _mro_count *)
+     h_truthy := fun h => negb (snd h =? 0);            (* handler 0 = "no handler given" (None) *)
+     notify_of := fun l => (l, 0);                      (* subscriber.notify *)
+     call_filter := fpass w |}.
+
+Inductive gtask :=
+| GScript (acts : list action)
+| GAct (a : action)
+| GBcast (m : msg)
+| GHandlers (m : msg) (hs : list (lid * GH))
+| GFlush (q : list msg).
+
+Definition grecs (w : world) (rec : ghub -> gtask -> option gres) : @recs GH Z event :=
+  {| call_handler := fun h m g =>
+       match rec g (GScript (hscript w (snd h))) with
+       | None => None
+       | Some (GNormal, g1, l1) => Some (GNormal, g1, ECall (fst h) (snd h) m :: l1 ++ [ERet (fst h) (snd h) m])
+       | Some (st, g1, l1) => Some (st, g1, ECall (fst h) (snd h) m :: l1)
+       end;
+     rec_broadcast := fun m g => rec g (GBcast m);
+     rec_broadcast_loop1 := fun m hs g => rec g (GHandlers m hs);
+     rec_delay_callbacks_loop1 := fun q g => rec g (GFlush q) |}.
+
+Definition gstep (w : world) (rec : ghub -> gtask -> option gres) (g : ghub) (t : gtask) : option gres :=
+  let o := gops w in
+  let r := grecs w rec in
+  match t with
+  | GScript [] => Some (GNormal, g, [])
+  | GScript (a :: rest) => seq_k (rec g (GAct a)) (fun g1 => rec g1 (GScript rest))
+  | GAct (Broadcast i c) => rec g (GBcast (i, c))
+  | GAct (Delay b) =>
+    match hub_delay_callbacks o r
+            (fun g0 => match rec g0 (GScript b) with
+                       | None => None
+                       | Some (st, g1, l1) => Some (st, g1, l1 ++ [EEnd])
+                       end) g with
+    | None => None
+    | Some (st, g1, l1) => Some (st, g1, EOpen :: l1 ++ [EClose])
+    end
+  | GAct (Ignore c b) => hub_ignore_callbacks o r (fun g0 => rec g0 (GScript b)) c g
+  | GAct (Subscribe l c h f p) => hub_subscribe o r l c (l, h) f p g
+  | GAct (Unsubscribe l c) => hub_unsubscribe o r l c g
+  | GAct (UnsubscribeAll l) => hub_unsubscribe_all o r l g
+  | GAct Raise => Some (GRaised, g, [])
+  | GBcast m => hub_broadcast o r m g
+  | GHandlers m hs => hub_broadcast_loop1 o r m hs g
+  | GFlush q => hub_delay_callbacks_loop1 o r q g
+  end.
+
+Fixpoint grun (fuel : nat) (w : world) (g : ghub) (t : gtask) : option gres :=
+  match fuel with
+  | O => None
+  | S n => gstep w (grun n w) g t
+  end.
+
 (* ---------- wire ---------- *)
 Definition tnat (t : tree) : nat := Z.to_nat (tag t).
 
@@ -288,6 +354,16 @@ Definition enc_hub (s : hub) : tree :=
        T 0 (map (fun e => T (Z.of_nat (fst e)) (map enc_sub (snd e))) (subs s))].
 Definition enc_status (st : status) : tree := leaf (match st with Normal => 0 | Raised => 1 end).
 
+Definition enc_gstatus (st : gstatus) : tree := leaf (match st with GNormal => 0 | GRaised => 1 | GCrash => 2 end).
+Definition enc_ghub (g : ghub) : tree :=
+  T 0 [leaf (g_paused g);
+       T 0 (map (fun m => T 0 (enc_msg m)) (g_queue g));
+       T 0 (flat_map (fun e : nat * Z => repeat (znat (fst e)) (Z.to_nat (snd e))) (g_ignore g));
+       T 0 (map (fun e : nat * container => T (Z.of_nat (fst e))
+                   (map (fun x : nat * (GH * Z * Z) =>
+                           T 0 [znat (fst x); znat (snd (fst (fst (snd x)))); leaf (snd (fst (snd x))); leaf (snd (snd x))])
+                        (snd e))) (g_subscriptions g))].
+
 (* (1 fuel (0 parents...) (0 (0 handler-script...)...) (0 script...))  ->  (1 status (0 events...) hub) | (-1 3) *)
 Definition run_case (t : tree) : tree :=
   match t with
@@ -303,5 +379,19 @@ Definition run_case (t : tree) : tree :=
     let S := map (fun e => (tnat e, map (fun x => {| s_cls := tnat (kid 0 x); s_h := tnat (kid 1 x);
                                                        s_f := tag (kid 2 x); s_p := tag (kid 3 x) |}) (kids e))) ss in
     T 0 (map (fun lh => T 0 [znat (fst lh); znat (snd lh)]) (find_handlers w S (i, tnat c)))
+  (* the same two entry points on the translated hub: (3 ...) as (1 ...), (4 ...) as (2 ...) *)
+  | T 3 [T fuel _; ps; T _ hs; T _ sc] =>
+    let w := tree_world (map tnat (kids ps)) (map (fun h => map dec_action (kids h)) hs) in
+    match grun (Z.to_nat fuel) w gempty (GScript (map dec_action sc)) with
+    | Some (st, g, lg) => T 1 [enc_gstatus st; T 0 (map enc_event lg); enc_ghub g]
+    | None => err 3
+    end
+  | T 4 [ps; T _ ss; T i _; c] =>
+    let w := tree_world (map tnat (kids ps)) [] in
+    let S := map (fun e => (tnat e, map (fun x => (tnat (kid 0 x), ((tnat e, tnat (kid 1 x)), tag (kid 2 x), tag (kid 3 x)))) (kids e))) ss in
+    match hub_find_handlers (gops w) (gset_subscriptions gempty S) (i, tnat c) with
+    | Some hs => T 0 (map (fun lh => T 0 [znat (fst lh); znat (snd (snd lh)); znat (fst (snd lh))]) hs)
+    | None => err 5
+    end
   | _ => err (-2)
   end.
